@@ -224,6 +224,25 @@ Proof.
 Qed.
 Print Assumptions C15_fix_post_sibling_refuted.
 
+(* READING of "visible": C15_fix_post takes ONNX lexical scoping (what onnx.checker enforces and onnxruntime accepts):
+   from a subgraph the enclosing graph's inputs, initializers and the outputs of its nodes UP TO the enclosing node
+   are visible (`vis`).  Under the stronger reading "every value of an enclosing graph, also those defined by later
+   nodes" the statement is false on the code as it exists, on a sorted well-scoped model: an unnamed value inside an
+   If branch and an unnamed output of a later node of the enclosing graph both get the unsuffixed name v (the shared
+   counter protects suffixed names only).  The serialized model passes onnx.checker(full_check) and runs in
+   onnxruntime; recorded as a note, not a finding. *)
+Theorem C15_fix_post_later_outer_refuted :
+  exists main ow vn nn u v,
+  let es := events_graph main in
+  let r := name_fix_pass main [] ow (fun _ => 0) (fun _ => 0) vn nn [] in
+  well_scoped es [] /\ snd r = None /\ u <> v /\ f_vn (fst r) u = f_vn (fst r) v /\ f_vn (fst r) u = Some s_v.
+Proof.
+  exists wit_later_graph, wit_later_own, wit_later_vn, wit_later_nn, 2, 3.
+  destruct fix_post_later_outer_refuted as [A [B C]].
+  split; [vm_compute; reflexivity|]. split; [exact A|]. split; [discriminate|]. split; [congruence | exact B].
+Qed.
+Print Assumptions C15_fix_post_later_outer_refuted.
+
 (* C15_fix_never_worse: one _fix_graph_names run over ANY graph and ANY scoping (no well_scoped, no closed_run,
    no WF0 hypothesis; only that this run did not raise): a value whose name the run changes gets a name that no
    value met by the run carried before; so two values met by the run that carry the same non-empty name afterwards
